@@ -4,3 +4,16 @@ mod cbor;
 mod crc32;
 
 pub use address::{Addr, AddressMatchXPub, ByronAddressType, ExtendedAddr, ParseExtendedAddrError};
+
+/// Verification hook H11, compiled only with `--cfg csl_verif` (never in normal builds):
+/// pass-throughs to the private Base58 codec so that it can be run on arbitrary byte strings
+/// (through the public API it only ever sees well-formed Byron addresses).
+#[cfg(csl_verif)]
+pub mod verif_base58 {
+    pub fn encode(input: &[u8]) -> String {
+        super::base58::encode(input)
+    }
+    pub fn decode(input: &str) -> Result<Vec<u8>, String> {
+        super::base58::decode(input).map_err(|e| e.to_string())
+    }
+}
